@@ -255,11 +255,12 @@ def run(chk: Check) -> None:
         "structural kinds are compared after projecting annotations onto the Docs.tla kind vocabulary (harness/c02.py norm_kind)",
     ]
     kinds = [k for k in ALL_KINDS if k != "alias"]  # bare-$ref alias schemas are rejected visibly by the loader (see C08 DRIFT)
-    fams = [(["A", "B"], 2, (False,)), (["A", "B"], 1, (False, True)), (["User", "UserGroup"], 2, (False,)), (["Node", "NodeItem"], 2, (False,))]
+    fams = [(["A", "B"], 2, (False,)), (["A", "B"], 1, (False, True)), (["User", "UserGroup"], 2, (False,)), (["Node", "NodeItem"], 2, (False,)), (["P", "Q"], 2, (False, True))]
     if thorough:
         fams = [(["A", "B"], 2, (False, True)), (["User", "UserGroup"], 2, (False, True)), (["Node", "NodeItem"], 2, (False,)), (["Children", "ChildrenItem"], 2, (False,)), (["A", "B", "C"], 2, (False,))]
     for names, k, req in fams:
-        docs = gen_graphs(chk, names, kinds, k, req=req)
+        # the {P,Q} family varies the required flag on two-edge graphs with inheritance (allOf) and plain references only
+        docs = gen_graphs(chk, names, kinds if names != ["P", "Q"] else ["allOf", "ref", "arr"], k, req=req)
         lab = "+".join(names)
         judge(chk, observe_ir(chk, docs, f"ir[{lab}]"), f"ir[{lab}]")
         if (names == ["A", "B"] and k == 2) or thorough:
